@@ -40,6 +40,20 @@ def specs(tier, seed):
                     "relay": {"p_drop": 0.08 * (i % 3), "p_dup": 0.1 * (i % 2), "p_delay": 0.1},
                     "fault_ms": [0, 20000], "pkts": common.packets(seed + 8000 + i, tier, c2c=True),
                     "dur_ms": 50000, "label": "c2c%d" % i})
+    # abandoned upstream packet followed by its "twin": the client gives a packet up after three unanswered
+    # retransmissions while the server still holds its first fragment; the next packet differs from it only in a way
+    # the Adler-32 checksum cannot see
+    k = 0
+    for qt in (["NULL", "TXT", "CNAME", "MX"] if tier == "quick" else common.QTYPES):
+        for lazy in (0, 1):
+            for end in ((4700, 5100) if tier == "quick" else (4300, 4700, 4900, 5100, 5400, 5800)):
+                for size in ((400,) if tier == "quick" else (300, 400, 700)):
+                    k += 1
+                    out.append({"seed": seed * 100000 + 95000 + k, "sess": {"qtype": qt, "lazy": lazy},
+                                "relay": {}, "blackout_ms": [["a", 1000, end]],
+                                "pkts": [[1000, "C0", "S", "twinA:%d" % k, size], [6000, "C0", "S", "twinB:%d" % k, size],
+                                         [9000, "C0", "S", "rand", 100]],
+                                "dur_ms": 20000, "label": "abandon%d/%s" % (k, qt)})
     return out
 
 
